@@ -3,6 +3,7 @@
 use super::bb_c05::*;
 use super::bb_c10::*;
 use super::bb_c12::*;
+use super::bb_c18::*;
 use super::bb_graph::*;
 use super::bb_oneshot::*;
 use super::inc_config::*;
@@ -93,6 +94,7 @@ pub fn main() -> i32 {
         "C15" => c15(&ctx),
         "C16" => c16(&ctx),
         "C17" => c17(&ctx),
+        "C18" => c18(&ctx),
         "C19" => c19(&ctx),
         "C20" => c20(&ctx),
         _ => {
@@ -207,6 +209,22 @@ fn bb_replays(ctx: &Ctx, report: &mut Report) -> u64 {
             }
         };
         let r = &v["replay"];
+        if r["engine"] == "BB-c18" {
+            match replay_c18(r) {
+                Ok(res) => {
+                    n += 1;
+                    if let Some(msg) = res.violation {
+                        println!("  replay {} still fails: {}", path.display(), msg);
+                        report.fail(Failure {
+                            message: msg,
+                            signature: res.signature.unwrap_or_default(),
+                            replay: res.replay,
+                        });
+                    }
+                }
+                Err(e) => report.infra_errors.push(e),
+            }
+        }
         if r["engine"] == "BB-c05" {
             match replay_c05(r) {
                 Ok(res) => {
@@ -872,6 +890,30 @@ fn c16(ctx: &Ctx) -> i32 {
             stream: 116,
         };
         let (part, failures) = run_prop(&pr, c16_case, eval_c16);
+        report.add(part);
+        for f in failures {
+            report.fail(f);
+        }
+    }
+    report.finish()
+}
+
+fn c18(ctx: &Ctx) -> i32 {
+    let mut report = Report::new(ctx, "exploration");
+    report.assume("model: per target, the content snapshot of its own declared resources taken when a run of it completed successfully (erased when it is cleaned or when it starts a run that fails); entry project, spelling, and what happened to other targets are deliberately not inputs of the prediction");
+    report.assume("a target that was (or may have been) started in an invocation shut down by another target's failure may or may not have been recorded: either answer is accepted next time and the model re-synchronises");
+    bb_replays(ctx, &mut report);
+    if ctx.replay.is_none() {
+        let pr = PropRun {
+            ctx,
+            engine: "BB",
+            rule: "histories of 3-9 steps over one tree (root project named or not, imported project sub): invocations from either entry project (-p), spelling bare / qualified / through an aggregate / as a dependency or X.output producer of another target / both spellings at once, optionally --clean U for another target, interleaved with content edits, touches and new files in input directories and with a target that fails on demand; prediction skipped <=> recorded snapshot == current snapshot, compared with script traces; non-trivial = a target reached by >= 2 routes with a failure or clean in the history; distinct = route set x root naming",
+            total_cases: ctx.tier.pick(120, 3000),
+            threads: 8.min(ctx.threads),
+            max_shrink_iters: 120,
+            stream: 118,
+        };
+        let (part, failures) = run_prop(&pr, c18_case, eval_c18);
         report.add(part);
         for f in failures {
             report.fail(f);
